@@ -500,7 +500,11 @@ func (e *Engine) runBlock(fr *frame, b *ssa.BasicBlock, final bool) {
 			return
 		case *ssa.Call:
 			fr.recCut = false
+			st.loadMemo = nil
 			ns := e.call(fr, st, in)
+			if ns != nil {
+				ns.loadMemo = nil
+			}
 			if fr.recCut {
 				if fr.recBlocks == nil {
 					fr.recBlocks = map[int]bool{}
@@ -787,7 +791,36 @@ func (e *Engine) bitClearRefine(st *State, cmp *ssa.BinOp) {
 }
 
 // bitTestRefine: (x & 2^k) != 0 with x < 2^(k+1) gives x >= 2^k; the == 0 side is handled in assumeCond via EQL.
-func (e *Engine) bitTestRefine(st *State, cmp *ssa.BinOp) {}
+func (e *Engine) bitTestRefine(st *State, cmp *ssa.BinOp) {
+	// (x & (c << i)) != 0 with a non-zero constant c implies that c << i is not zero in its
+	// type: the shift count is below the width
+	and, ok := cmp.X.(*ssa.BinOp)
+	zero, ok2 := cmp.Y.(*ssa.Const)
+	if !ok || !ok2 || and.Op != token.AND || e.expr(st, zero).C != 0 {
+		return
+	}
+	for _, o := range []ssa.Value{and.X, and.Y} {
+		sh, ok := o.(*ssa.BinOp)
+		if !ok || sh.Op != token.SHL {
+			continue
+		}
+		if _, isConst := sh.X.(*ssa.Const); !isConst {
+			continue
+		}
+		r := typeRange(sh.Type())
+		if !r.HasHi {
+			continue
+		}
+		w := int64(0)
+		for x := r.Hi - r.Lo + 1; x > 1; x >>= 1 {
+			w++
+		}
+		i := e.expr(st, sh.Y)
+		if !i.Bad && st.Entails(i) {
+			st.Assume(Const(w - 1).Sub(i))
+		}
+	}
+}
 
 func (e *Engine) trace(format string, a ...any) {
 	if e.Trace != nil {
